@@ -114,7 +114,14 @@ impl World {
         }
     }
 
-    pub fn emit(&mut self, v: Value) {
+    pub fn emit(&mut self, mut v: Value) {
+        // every line carries the clock at emission: whole seconds since BASE / I0
+        if let Value::Object(m) = &mut v {
+            let tw = wall_json(self.wall)["s"].clone();
+            let tm = self.mono_j(self.mono)["s"].clone();
+            m.insert("tw".into(), tw);
+            m.insert("tm".into(), tm);
+        }
         self.lines.push(v.to_string());
     }
 
@@ -171,12 +178,12 @@ impl World {
             Some(d) => dur_json(d),
             None => {
                 let d = self.i0.duration_since(t);
-                if d.as_secs() < (1 << 30) {
-                    json!({"s": -(d.as_secs() as i64) - if d.subsec_nanos() > 0 {1} else {0},
-                           "ns": if d.subsec_nanos() > 0 { 1_000_000_000 - d.subsec_nanos() } else { 0 }})
+                let (s, ns) = if d.subsec_nanos() > 0 {
+                    (-(d.as_secs() as i128) - 1, 1_000_000_000 - d.subsec_nanos())
                 } else {
-                    json!("far-")
-                }
+                    (-(d.as_secs() as i128), 0)
+                };
+                json!({"s": int_json(s), "ns": ns})
             }
         }
     }
@@ -184,52 +191,37 @@ impl World {
 
 pub fn wall_json(t: SystemTime) -> Value {
     let base = base_wall();
-    match t.duration_since(base) {
-        Ok(d) => {
-            if d.as_secs() < (1 << 30) {
-                json!({"s": d.as_secs() as i64, "ns": d.subsec_nanos()})
-            } else {
-                json!("far+")
-            }
-        }
+    let (s, ns): (i128, u32) = match t.duration_since(base) {
+        Ok(d) => (d.as_secs() as i128, d.subsec_nanos()),
         Err(e) => {
             let d = e.duration();
-            if d.as_secs() < (1 << 30) {
-                // floor form: s negative, ns in 0..1e9
-                let (s, ns) = if d.subsec_nanos() > 0 {
-                    (-(d.as_secs() as i64) - 1, 1_000_000_000 - d.subsec_nanos())
-                } else {
-                    (-(d.as_secs() as i64), 0)
-                };
-                json!({"s": s, "ns": ns})
+            // floor form: s negative, ns in 0..1e9
+            if d.subsec_nanos() > 0 {
+                (-(d.as_secs() as i128) - 1, 1_000_000_000 - d.subsec_nanos())
             } else {
-                json!("far-")
+                (-(d.as_secs() as i128), 0)
             }
         }
-    }
+    };
+    json!({"s": int_json(s), "ns": ns})
 }
 
 pub fn dur_json(d: Duration) -> Value {
-    if d.as_secs() < (1 << 30) {
-        json!({"s": d.as_secs() as i64, "ns": d.subsec_nanos()})
-    } else {
-        json!("big")
-    }
+    json!({"s": int_json(d.as_secs() as i128), "ns": d.subsec_nanos()})
 }
 
-/// i64 that TLC can read (32-bit), else a tagged string.
+pub const BIG: i64 = 1 << 30;
+
+/// Integers are clamped to [-2^30, 2^30] (TLC integers are 32-bit); 2^30 reads "at least 2^30".
 pub fn int_json(i: i128) -> Value {
-    if i >= -(1 << 30) && i <= (1 << 30) {
-        json!(i as i64)
-    } else {
-        json!(format!("@int:{}", i))
-    }
+    json!(i.clamp(-(BIG as i128), BIG as i128) as i64)
 }
 
+/// Option<T> is a JSON array of length <= 1 (TLC cannot compare a record or number with "None").
 pub fn opt_json<T: Into<Value>>(o: Option<T>) -> Value {
     match o {
-        Some(v) => v.into(),
-        None => json!("None"),
+        Some(v) => Value::Array(vec![v.into()]),
+        None => json!([]),
     }
 }
 
